@@ -19,15 +19,26 @@ def intr(*names):
 
 def lift_str(ex, st, vals, f):
     """apply f to all combinations of alternatives of vals (ChoiceV aware)"""
+    def len_alts(v):
+        """case-split a string over the (small) value set of its length"""
+        if isinstance(v, Str) and not is_c(v.ln):
+            vs = vals_of(v.ln, 6)
+            if vs is not None:
+                vs = [x for x in vs if 0 <= x <= v.cap]
+                if vs:
+                    return [(v.ln == x, Str(v.b[:x], x)) for x in vs]
+        return [(True, v)]
+
     def rec(i, acc, g):
         if i == len(vals):
             return [(g, f(*acc))]
         out = []
         for ga, va in alts_of(vals[i]):
-            gg = b_and(g, ga)
-            if gg is False:
-                continue
-            out += rec(i + 1, acc + [va], gg)
+            for gl, vl in len_alts(va):
+                gg = b_and(g, ga, gl)
+                if gg is False:
+                    continue
+                out += rec(i + 1, acc + [vl], gg)
         return out
     r = rec(0, [], True)
     return merge_vals(ex.ctx, st.heap, r)
@@ -924,8 +935,22 @@ def lib_zero_buffer():
 
 def rope_str(parts):
     """materialise a rope (list of pieces) ; the list is collapsed in place so the work is done once"""
-    if isinstance(parts, Str):
+    if isinstance(parts, (Str, ChoiceV)):
         return parts
+    if any(isinstance(p, ChoiceV) for p in parts):
+        alts = [(True, EMPTY)]
+        for p in parts:
+            new = []
+            for g1, a in alts:
+                for g2, b in alts_of(p):
+                    gg = b_and(g1, g2)
+                    if gg is not False:
+                        new.append((gg, s_concat(a, b)))
+            r = mkchoice(new)
+            alts = list(r.alts) if isinstance(r, ChoiceV) else [(True, r)]
+        r = mkchoice(alts)
+        parts[:] = [r]
+        return r
     if len(parts) != 1:
         r = s_concat_all(parts)
         parts[:] = [r]
@@ -946,9 +971,12 @@ def _append_to(ex, st, g, p, piece, pos):
             ex.ctx.oblige('panic', 'nil dereference (builder)', b_and(g, ga), pos)
             continue
         o = get_path(st.heap[pa.obj], pa.path)
-        pc = EMPTY
-        for gb, pb in alts_of(piece):
-            pc = s_ite(b_and(ga, gb), pb, pc)
+        if ex.ctx.hooks.get('choice_strings') and ga is True:
+            pc = piece
+        else:
+            pc = EMPTY
+            for gb, pb in alts_of(piece):
+                pc = s_ite(b_and(ga, gb), pb, pc)
         parts = o.d['s']
         parts = list(parts) if isinstance(parts, list) else [parts]
         parts.append(pc)
@@ -1480,14 +1508,62 @@ def cpath(v):
     return posixpath.normpath(v.conc().decode('latin1'))
 
 
+LONG_SENTINEL = b'<<LINE-OF-70000-B>>'
+
+
+@harness('vLongLine')
+def h_longline(ex, st, g, args, pos):
+    ex.ctx.note('a line longer than the Scanner token limit is represented by a sentinel; the Scanner model stops with ErrTooLong on it unless Buffer() raised the limit above 70000')
+    return s_const(LONG_SENTINEL)
+
+
 @harness('vStubJoin')
 def h_stub_join(ex, st, g, args, pos):
     st.heap['STUB:join'] = args[0]
     return None
 
 
+@harness('vStubJoinError')
+def h_stub_join_error(ex, st, g, args, pos):
+    st.heap['STUB:join_error'] = True
+    return None
+
+
+@harness('vStubJoinEcho')
+def h_stub_join_echo(ex, st, g, args, pos):
+    st.heap['STUB:join_echo'] = True
+    return None
+
+
 @intr('github.com/itchyny/rassemble-go.Join')
 def i_rassemble_join(ex, st, g, args, pos):
+    if st.heap.get('STUB:join_echo') and not st.heap.get('STUB:join_error'):
+        ex.ctx.note('rassemble.Join stubbed: returns its entries joined by |, redundant outer (?:...) layers of a single entry removed (harnesses use single-entry sources, for which this is what rassemble returns)')
+        r = i_join(ex, st, g, [args[0], s_const('|')], pos)
+
+        def strip(sv):
+            if not sv.is_conc():
+                return sv
+            t = sv.conc()
+            while t.startswith(b'(?:') and t.endswith(b')'):
+                depth = 0
+                ok = True
+                for i, c in enumerate(t):
+                    if c == 40:
+                        depth += 1
+                    elif c == 41:
+                        depth -= 1
+                        if depth == 0 and i != len(t) - 1:
+                            ok = False
+                            break
+                if not ok:
+                    break
+                t = t[3:-1]
+            return s_const(t)
+        return (lift_str(ex, st, [r], strip), NILIFACE)
+    if st.heap.get('STUB:join_error'):
+        ex.ctx.note('rassemble.Join stubbed: returns an error (malformed entry)')
+        return (EMPTY, IfaceV('error:opaque', s_const('rassemble: parse error')))
     stub = st.heap.get('STUB:join')
     if stub is None:
         raise Unsupported('rassemble.Join reached without a stub (use vStubJoin or a nondet stub)')
@@ -1545,6 +1621,498 @@ def i_os_writefile(ex, st, g, args, pos):
         files[path] = (b_or(old[0], g), s_ite(g, args[1], old[1]))
     st.heap['FS'] = fs.with_(files=files)
     ex.ctx.effects.append((g, 'write', (path, args[1])))
+    return NILIFACE
+
+
+# ------------------------------------------------------------------ os.File / bufio.Scanner / bufio.Writer
+@intr('os.Open')
+def i_os_open(ex, st, g, args, pos):
+    fs = fs_get(st)
+    if not (isinstance(args[0], Str) and args[0].is_conc()):
+        alts = fs_wild_lookup(fs, args[0])
+        if not alts:
+            raise Unsupported('open of a symbolic path without a wild entry')
+        content = EMPTY
+        ok = False
+        for c, cont, isdir in alts:
+            content = s_ite(c, cont, content)
+            ok = b_or(ok, b_and(c, b_not(isdir)))
+        key = ex.ctx.newobj('file')
+        st.heap[key] = LibV('File', path='<wild>', s=[content], longline=None)
+        err = merge_vals(ex.ctx, st.heap, [(ok, NILIFACE), (True, IfaceV('error:opaque', s_const('open: error')))])
+        return (Ptr(key), err)
+    path = cpath(args[0])
+    e = fs.d['files'].get(path)
+    fault = fs.d.get('open_fail', {}).get(path)
+    if e is None:
+        return (NIL, IfaceV('error:opaque', s_const('open %s: no such file or directory' % path)))
+    key = ex.ctx.newobj('file')
+    st.heap[key] = LibV('File', path=path, s=[e[1]], longline=fs.d.get('longline', {}).get(path))
+    ok = e[0]
+    if fault is not None:
+        ok = b_and(ok, b_not(fault))
+    if ok is True:
+        return (Ptr(key), NILIFACE)
+    err = merge_vals(ex.ctx, st.heap, [(ok, NILIFACE), (True, IfaceV('error:opaque', s_const('open: error')))])
+    return (Ptr(key), err)
+
+
+@intr('(*os.File).Close')
+def i_file_close(ex, st, g, args, pos):
+    return NILIFACE
+
+
+@intr('os.Stat')
+def i_os_stat(ex, st, g, args, pos):
+    fs = fs_get(st)
+    path = cpath(args[0])
+    ex_ = fs.d.get('dirs', {}).get(path)
+    if ex_ is None:
+        e = fs.d['files'].get(path)
+        ex_ = e[0] if e is not None else False
+    err = merge_vals(ex.ctx, st.heap, [(ex_, NILIFACE), (True, IfaceV('error:opaque', s_const('stat: no such file or directory')))])
+    return (NILIFACE if False else IfaceV('os.fileinfo:opaque', None), err)
+
+
+def reader_content(ex, st, g, r, pos):
+    """content Str (and long-line marker) of an io.Reader value: *os.File, *bytes.Buffer, *bytes.Reader, *strings.Reader"""
+    if isinstance(r, IfaceV):
+        r = r.v
+    o = ex.load(st, g, r, pos)
+    if not isinstance(o, LibV) or 's' not in o.d:
+        raise Unsupported('reader %r' % (o,))
+    return rope_str(o.d['s']), o.d.get('longline')
+
+
+@intr('bufio.NewScanner')
+def i_new_scanner(ex, st, g, args, pos):
+    content, longline = reader_content(ex, st, g, args[0], pos)
+    key = ex.ctx.newobj('scanner')
+    # upper bound on the number of lines: positions that can hold a newline, plus one
+    maxlines = 1 + sum(1 for q in range(content.cap) if i_cmp('==', content.b[q], 10, 8, False) is not False)
+    st.heap[key] = LibV('Scanner', s=content, pos=0, tok=EMPTY, err=False, line=0, longline=longline, limit=65536, calls=0, maxlines=maxlines)
+    return Ptr(key)
+
+
+@intr('(*bufio.Scanner).Split')
+def i_scanner_split(ex, st, g, args, pos):
+    f = args[1]
+    if not (isinstance(f, FuncV) and f.fn == 'bufio.ScanLines'):
+        raise Unsupported('Scanner.Split with a function other than bufio.ScanLines')
+    return None
+
+
+@intr('(*bufio.Scanner).Buffer')
+def i_scanner_buffer(ex, st, g, args, pos):
+    o = ex.load(st, g, args[0], pos)
+    mx = args[2]
+    if not is_c(mx):
+        raise Unsupported('Scanner.Buffer with symbolic max')
+    ex.store(st, g, args[0], o.with_(limit=mx), pos)
+    return None
+
+
+@intr('(*bufio.Scanner).Scan')
+def i_scanner_scan(ex, st, g, args, pos):
+    o = ex.load(st, g, args[0], pos)
+    if isinstance(o, ChoiceV):
+        raise Unsupported('merged scanners')
+    s = o.d['s']
+    p = o.d['pos']
+    more = b_and(i_cmp('<', p, s.ln, W, True), b_not(o.d['err']))
+    calls = o.d.get('calls', 0)
+    if is_c(calls) and calls >= o.d.get('maxlines', 1 << 30):
+        more = False
+    if more is False:
+        ex.store(st, g, args[0], o.with_(tok=EMPTY), pos)
+        return False
+    # end of line: first '\n' at/after p, else end of data
+    vs = vals_of(p, 16)
+    generic = vs is None
+    if generic:
+        vs = [p]
+    res = []
+    for v in vs:
+        e = s.ln
+        found = False
+        for q in range(s.cap - 1, (v if not generic else 0) - 1, -1):
+            hit = b_and(i_cmp('<', q, s.ln, W, True), i_cmp('==', s.b[q], 10, 8, False))
+            if generic:
+                hit = b_and(hit, i_cmp('<=', p, q, W, True))
+            e = ite(hit, q, e, W)
+            found = b_or(found, hit)
+        if not is_c(e):
+            set_ub(e, s.cap)
+        tok = s_substr(s, v, e)
+        # drop one trailing CR
+        hascr = b_and(i_cmp('>', tok.ln, 0, W, True), i_cmp('==', s_byte(tok, i_bin('-', tok.ln, 1, W, True)), 13, 8, False))
+        tl = ite(hascr, i_bin('-', tok.ln, 1, W, True), tok.ln, W)
+        if not is_c(tl):
+            set_ub(tl, tok.cap)
+        tok = Str(tok.b, tl)
+        nxt = ite(found, i_bin('+', e, 1, W, True), s.ln, W)
+        if not is_c(nxt):
+            set_ub(nxt, s.cap + 1)
+        res.append(((p == v) if (not is_c(p) and not generic) else True, (tok, nxt)))
+    tok, nxt = merge_vals(ex.ctx, st.heap, res)
+    line = o.d['line']
+    # the line marked as longer than the token limit makes Scan stop with an error (contract of bufio.Scanner)
+    toolong = False
+    ll = o.d.get('longline')
+    if ll is not None and o.d['limit'] <= 65536:
+        toolong = i_cmp('==', line, ll, W, True) if not isinstance(ll, bool) else False
+    if o.d['limit'] < 70000:
+        toolong = b_or(toolong, s_eq(tok, s_const(LONG_SENTINEL)))
+    ok = b_and(more, b_not(toolong))
+    ex.store(st, g, args[0], o.with_(pos=ite(ok, nxt, p, W), tok=s_ite(ok, tok, EMPTY), err=b_or(o.d['err'], b_and(more, toolong)),
+                                     line=i_bin('+', line, ite(ok, 1, 0, W), W, True),
+                                     calls=(calls + 1) if is_c(calls) else calls), pos)
+    return ok
+
+
+@intr('(*bufio.Scanner).Text', '(*bufio.Scanner).Bytes')
+def i_scanner_text(ex, st, g, args, pos):
+    o = ex.load(st, g, args[0], pos)
+    return o.d['tok']
+
+
+@intr('(*bufio.Scanner).Err')
+def i_scanner_err(ex, st, g, args, pos):
+    o = ex.load(st, g, args[0], pos)
+    return merge_vals(ex.ctx, st.heap, [(o.d['err'], IfaceV('error:opaque', s_const('bufio.Scanner: token too long'))), (True, NILIFACE)])
+
+
+@intr('bufio.NewWriter')
+def i_new_writer(ex, st, g, args, pos):
+    w = args[0]
+    if isinstance(w, IfaceV):
+        w = w.v
+    key = ex.ctx.newobj('bufw')
+    st.heap[key] = LibV('Writer', target=w)
+    return Ptr(key)
+
+
+@intr('(*bufio.Writer).WriteString')
+def i_bufw_writestring(ex, st, g, args, pos):
+    o = ex.load(st, g, args[0], pos)
+    _append_to(ex, st, g, o.d['target'], args[1], pos)
+    return (args[1].ln if isinstance(args[1], Str) else 0, NILIFACE)
+
+
+@intr('(*bufio.Writer).WriteRune')
+def i_bufw_writerune(ex, st, g, args, pos):
+    o = ex.load(st, g, args[0], pos)
+    s = rune_to_str(ex, args[1], (32, True), g, pos)
+    _append_to(ex, st, g, o.d['target'], s, pos)
+    return (s.ln, NILIFACE)
+
+
+@intr('(*bufio.Writer).Flush')
+def i_bufw_flush(ex, st, g, args, pos):
+    return NILIFACE
+
+
+@intr('io.ReadAll')
+def i_readall(ex, st, g, args, pos):
+    content, _ = reader_content(ex, st, g, args[0], pos)
+    return (content, NILIFACE)
+
+
+@intr('(*os.File).WriteString')
+def i_file_writestring(ex, st, g, args, pos):
+    f = args[0]
+    ex.ctx.effects.append((g, 'stdout' if (isinstance(f, Ptr) and f.obj == 'STDOUT') else 'filewrite', args[1]))
+    return (args[1].ln, NILIFACE)
+
+
+@intr('github.com/Masterminds/semver/v3.NewVersion')
+def i_semver_newversion(ex, st, g, args, pos):
+    """accepted iff the string matches the package's own validation regex (constant read from the dependency's SSA);
+    further numeric checks of NewVersion are not modelled (over-approximation, confirmed at replay)"""
+    hx = ex.prog.consts.get('github.com/Masterminds/semver/v3.semVerRegex')
+    if hx is None:
+        raise Unsupported('semver validation regex constant not found')
+    pat = '^' + bytes.fromhex(hx).decode() + '$'
+    ex.ctx.hooks.setdefault('patterns', {})[pat] = pos
+    ex.ctx.note('semver.NewVersion modelled by its validation regex ' + pat)
+    prog = pike.prog_of(pat)
+
+    def one(s):
+        m, _, _ = pike.match(prog, s)
+        return (NIL, merge_vals(ex.ctx, st.heap, [(m, NILIFACE), (True, IfaceV('error:opaque', s_const('Invalid Semantic Version')))]))
+    return lift_str(ex, st, [args[0]], one)
+
+
+def _lift_receiver(f):
+    def g_(ex, st, g, args, pos):
+        if isinstance(args[0], ChoiceV):
+            res = []
+            for ga, rv in alts_of(args[0]):
+                res.append((ga, f(ex, st, b_and(g, ga), [rv] + list(args[1:]), pos)))
+            return merge_vals(ex.ctx, st.heap, res)
+        return f(ex, st, g, args, pos)
+    return g_
+
+
+for _n in list(INTR):
+    if _n.startswith('(*regexp.Regexp).'):
+        INTR[_n] = _lift_receiver(INTR[_n])
+
+
+# ------------------------------------------------------------------ directory walks, glob, write log
+def iface_is_nil(v):
+    r = False
+    for ga, a in alts_of(v):
+        if isinstance(a, IfaceV):
+            if a.t is None:
+                r = b_or(r, ga)
+        elif isinstance(a, Ptr) and a.obj is None:
+            r = b_or(r, ga)
+    return r
+
+
+def iface_has_type(v, t):
+    r = False
+    for ga, a in alts_of(v):
+        if isinstance(a, IfaceV) and a.t == t:
+            r = b_or(r, ga)
+    return r
+
+
+def dirent(name, isdir):
+    return IfaceV('verif.dirent', StructV([name, isdir]))
+
+
+INTR['invoke:verif.dirent.IsDir'] = lambda ex, st, g, args, pos: args[0].f[1]
+INTR['invoke:verif.dirent.Name'] = lambda ex, st, g, args, pos: args[0].f[0]
+
+
+@harness('vWildEntry')
+def h_wild_entry(ex, st, g, args, pos):
+    """one arbitrary directory entry (symbolic name, symbolic IsDir) directly under a directory; its content is given"""
+    fs = fs_get(st)
+    wild = dict(fs.d.get('wild', {}))
+    wild[cpath(args[0])] = (args[1], args[2], args[3])
+    st.heap['FS'] = fs.with_(wild=wild)
+    return None
+
+
+def fs_wild_lookup(fs, path):
+    """content of a file addressed by a (partly symbolic) path: matches a registered wild entry"""
+    res = []
+    for root, (name, isdir, content) in fs.d.get('wild', {}).items():
+        full = s_concat(s_const(root + '/'), name)
+        res.append((s_eq(path, full), content, isdir))
+    return res
+
+
+_orig_readfile = INTR['os.ReadFile']
+
+
+@intr('os.ReadFile')
+def i_os_readfile2(ex, st, g, args, pos):
+    p = args[0]
+    if isinstance(p, Str) and p.is_conc():
+        return _orig_readfile(ex, st, g, args, pos)
+    fs = fs_get(st)
+    alts = fs_wild_lookup(fs, p)
+    if not alts:
+        raise Unsupported('read of a symbolic path without a wild entry')
+    content = EMPTY
+    ok = False
+    for c, cont, isdir in alts:
+        content = s_ite(c, cont, content)
+        ok = b_or(ok, b_and(c, b_not(isdir)))
+    err = merge_vals(ex.ctx, st.heap, [(ok, NILIFACE), (True, IfaceV('error:opaque', s_const('read error')))])
+    return (content, err)
+
+
+_orig_writefile = INTR['os.WriteFile']
+
+
+@intr('os.WriteFile')
+def i_os_writefile2(ex, st, g, args, pos):
+    p = args[0]
+    ex.ctx.hooks.setdefault('writes', []).append((g, p, args[1]))
+    if isinstance(p, Str) and p.is_conc():
+        return _orig_writefile(ex, st, g, args, pos)
+    ex.ctx.effects.append((g, 'write', ('<symbolic path>', args[1])))
+    return NILIFACE
+
+
+@harness('vStubGlob')
+def h_stub_glob(ex, st, g, args, pos):
+    """filepath.Glob returns the first n files (sorted) of the given directory, whatever the pattern"""
+    fs = fs_get(st)
+    d = cpath(args[0])
+    n = args[1]
+    res = sorted(p for p in fs.d['files'] if p.startswith(d + '/'))[:n]
+    st.heap['FS'] = fs.with_(glob_override=res)
+    return None
+
+
+@harness('vSnapshot')
+def h_snapshot(ex, st, g, args, pos):
+    ex.ctx.hooks['writes0'] = len(ex.ctx.hooks.get('writes', []))
+    return None
+
+
+def _writes(ex):
+    return ex.ctx.hooks.get('writes', [])[ex.ctx.hooks.get('writes0', 0):]
+
+
+@harness('vWriteN')
+def h_write_n(ex, st, g, args, pos):
+    return len(_writes(ex))
+
+
+@harness('vWriteGuard')
+def h_write_guard(ex, st, g, args, pos):
+    return _writes(ex)[args[0]][0]
+
+
+@harness('vWritePath')
+def h_write_path(ex, st, g, args, pos):
+    return _writes(ex)[args[0]][1]
+
+
+@intr('path/filepath.WalkDir')
+def i_walkdir(ex, st, g, args, pos):
+    root = cpath(args[0])
+    fn = args[1]
+    fs = fs_get(st)
+    # concrete tree under root
+    files = sorted(p for p in fs.d['files'] if p.startswith(root + '/'))
+    dirs = set(fs.d.get('dirs', {}).keys())
+    order = [(root, posixpath.basename(root), True)]
+    seen = set()
+    for p in files:
+        rel = p[len(root) + 1:].split('/')
+        for i in range(1, len(rel)):
+            d = root + '/' + '/'.join(rel[:i])
+            if d not in seen:
+                seen.add(d)
+                order.append((d, rel[i - 1], True))
+        order.append((p, rel[-1], False))
+    # lexical order as filepath.WalkDir: directories are walked in place
+    def key(e):
+        return e[0].split('/')
+    order = [order[0]] + sorted(order[1:], key=key)
+    entries = [(s_const(pth), s_const(nm), isd) for pth, nm, isd in order]
+    wild = fs.d.get('wild', {}).get(root)
+    if wild is not None:
+        name, isdir, content = wild
+        entries.append((s_concat(s_const(root + '/'), name), name, isdir))
+    ex.ctx.note('filepath.WalkDir: walks the modelled tree in lexical order, then (if registered) one arbitrary entry with symbolic name and IsDir directly under the root')
+    alive = g          # paths on which the walk is still going
+    stopped = False    # paths on which the callback returned an error: WalkDir returns it
+    result = NILIFACE
+    skip_prefix = []   # (guard, directory path) skipped via SkipDir
+    for pth, nm, isd in entries:
+        if alive is False:
+            break
+        gg = alive
+        for sg, sp in skip_prefix:
+            if pth.is_conc() and pth.conc().decode().startswith(sp + '/'):
+                gg = b_and(gg, b_not(sg))
+        if gg is False:
+            continue
+        r, heap2, g2 = ex.call_with_bindings(fn.fn, [pth, dirent(nm, isd), NILIFACE], fn.bind, st.heap, gg, pos)
+        st.heap = heap2
+        not_visited = b_and(alive, b_not(gg))
+        if g2 is False:      # the callback never returns on these paths (Fatal / panic): terminals recorded
+            alive = not_visited
+            continue
+        isnil = iface_is_nil(r)
+        isskip = iface_has_type(r, 'error:skipdir')
+        if isskip is not False and pth.is_conc():
+            d = pth.conc().decode() if isd is True else posixpath.dirname(pth.conc().decode())
+            skip_prefix.append((b_and(g2, isskip), d))
+        stop = b_and(g2, b_not(isnil), b_not(isskip))
+        result = merge_vals(ex.ctx, st.heap, [(stop, r), (True, result)])
+        stopped = b_or(stopped, stop)
+        alive = b_or(not_visited, b_and(g2, b_or(isnil, isskip)))
+    return ret(result, b_or(alive, stopped))
+
+
+@intr('path/filepath.Glob')
+def i_glob(ex, st, g, args, pos):
+    """patterns of the form DIR/*-XXX-* or DIR/*/NAME.* over the modelled tree (concrete), via fnmatch"""
+    import fnmatch
+    pat = cpath(args[0])
+    fs = fs_get(st)
+    res = sorted(p for p in fs.d['files'] if fnmatch.fnmatchcase(p, pat) and p.count('/') == pat.count('/'))
+    forced = fs.d.get('glob_override')
+    if forced is not None:
+        res = forced
+    if not res:
+        return (NILSLICE, NILIFACE)
+    return (mk_slice(ex, st, [s_const(p) for p in res]), NILIFACE)
+
+
+def path_base_sym(s):
+    if s.is_conc():
+        return path_base(s)
+    # last '/' position is concrete when only the final element is symbolic (names never contain '/')
+    last = -1
+    for p in range(s.cap):
+        c = i_cmp('==', s.b[p], 47, 8, False)
+        if c is True:
+            last = p
+        elif c is not False:
+            raise Unsupported('path.Base: symbolic separator')
+    return s_substr(s, last + 1, s.ln)
+
+
+INTR['path.Base'] = lambda ex, st, g, args, pos: lift_str(ex, st, [args[0]], path_base_sym)
+INTR['path/filepath.Base'] = INTR['path.Base']
+
+
+@intr('math.Max')
+def i_math_max(ex, st, g, args, pos):
+    if all(isinstance(a, float) for a in args):
+        return max(args)
+    raise Unsupported('math.Max on symbolic floats')
+
+
+@intr('math.Min')
+def i_math_min(ex, st, g, args, pos):
+    if all(isinstance(a, float) for a in args):
+        return min(args)
+    raise Unsupported('math.Min on symbolic floats')
+
+
+@intr('math.Ceil')
+def i_math_ceil(ex, st, g, args, pos):
+    import math
+    if isinstance(args[0], float):
+        return float(math.ceil(args[0]))
+    raise Unsupported('math.Ceil on symbolic float')
+
+
+@intr('dario.cat/mergo.Merge')
+def i_mergo_merge(ex, st, g, args, pos):
+    """mergo.Merge(&dst, src) for map[string]string: keys of src are added unless dst already has a non-empty value"""
+    dstp, src = args[0], args[1]
+    if isinstance(dstp, IfaceV):
+        dstp = dstp.v
+    if isinstance(src, IfaceV):
+        src = src.v
+    dst = ex.load(st, g, dstp, pos)
+    if not (isinstance(src, Ptr) and isinstance(dst, Ptr)):
+        raise Unsupported('mergo.Merge on non-map values')
+    if src.obj is None:
+        return NILIFACE
+    ex.ctx.note('mergo.Merge modelled for map[string]string: existing non-empty values of the destination win')
+    for (p, k, v) in st.heap[src.obj].entries:
+        old, ok = ex.map_lookup(st, g, dst, k, EMPTY, pos)
+        keep = b_and(ok, b_not(s_eq(old, EMPTY)) if isinstance(old, Str) else ok)
+        newv = merge_vals(ex.ctx, st.heap, [(keep, old), (True, v)])
+        if p is not False:
+            if p is True:
+                ex.map_update(st, g, dst, k, newv, pos)
+            else:
+                raise Unsupported('mergo.Merge with conditionally present source entries')
     return NILIFACE
 
 
